@@ -13,7 +13,7 @@ COMMON_NOTE = ("Trusted: Lean 4.33 kernel (axioms propext/Classical.choice/Quot.
 
 CLAIMED = {
     "C01": dict(
-        engine="M3 Session",
+        engine="M3 Session + M13 Dealer",
         technique="Lean 4 theorems: conservation lemmas for the two batch-assembly passes, an egress-buffer refinement (partial writes, priority "
                   "chunks) and a wire-order invariant by induction over every event sequence of the session's send path; the same for the receive "
                   "path; composed with the C03 round-trip for any segmentation; tie: translator re-extracts the guards of the assembly code "
@@ -25,8 +25,12 @@ CLAIMED = {
              "chunk-aligned and control frames land only on chunk boundaries; a pass always takes the oldest message; batches respect count and "
              "byte ceilings; the session buffers at most SNDHWM messages plus one batch; on the receive side delivered ++ queued ++ buffered = "
              "decoded for every schedule of reads, drains, stalled and cancelled sends; end to end (drained, any cuts) the receiver regroups "
-             "exactly the accepted messages. 17 theorems. Partial: the socket patterns' own queues (DEALER pending queue, load balancer, ROUTER "
-             "map), the inproc path and the io_uring backend are exercised by the streaming scenarios only, not modelled; liveness (everything "
+             "exactly the accepted messages; DEALER's pending queue in front of the pipe: for every interleaving of sends, the processor's "
+             "pops and (failed or successful) hand-over attempts and the session's takes, wire ++ pipe ++ processor's hand ++ queue = "
+             "the acceptance log, so nothing overtakes (two counterexample theorems for the earlier shapes: a send that ignored the "
+             "backlog, a re-queue at the back). 21 theorems. Partial: the DEALER model is tied by translator flags and the streaming "
+             "scenarios (no lock-step run: the processor is a timing-driven task); the load balancer across several peers, the ROUTER "
+             "map, the inproc path and the io_uring backend are exercised by the streaming scenarios only; liveness (everything "
              "accepted is eventually written) is observed, not proved.",
         note=COMMON_NOTE + "The model's events are atomic with respect to each other because the session actor is a single task; fibre channels are assumed FIFO.",
         design="§8 C01"),
@@ -164,7 +168,7 @@ CLAIMED = {
         note=COMMON_NOTE + "Socket-level envelope functions are modelled from the source text; they are private methods not reachable from the harness.",
         design="§8 C11"),
     "C14": dict(
-        engine="M7 Hwm + M3 Session",
+        engine="M7 Hwm + M3 Session + M13 Dealer",
         technique="Lean 4 theorems: the send/recv decision functions at the high-water mark (try / timed / waiting branches) stated outright and "
                   "proved by case analysis; buffering bounds by induction over every interleaving of application offers and session events; tie: "
                   "translator re-extracts capacities and branch structure (theorem `source_shape`), stack scenarios on real sockets that measure "
@@ -174,7 +178,8 @@ CLAIMED = {
              "three statements for RCVTIMEO on an empty socket; a refused send changes nothing and everything accepted stays accounted for in wire "
              "order; the sending side of a connection holds at most 2*SNDHWM + SNDBATCH_COUNT messages (pipe, egress buffer, carry-over) for every "
              "producer/consumer speed, the receiving side RCVHWM plus one read; the earlier 30 s cap on SNDTIMEO -1 is proved to violate the "
-             "statement. 13 theorems. KNOWN FINDING C14:sndtimeo-change-ignored-by-existing-connections (DEALER/ROUTER/PUB keep the SNDTIMEO their "
+             "statement; DEALER's pending queue never holds more than SNDHWM messages plus the one in its processor's hand, and a refused DEALER "
+             "send changes nothing. 15 theorems. KNOWN FINDING C14:sndtimeo-change-ignored-by-existing-connections (DEALER/ROUTER/PUB keep the SNDTIMEO their "
              "connection was created with; replayed on every run). Partial: wall-clock accuracy of Tokio timers, kernel socket buffers and DEALER's extra pending queue "
              "(bounded by SNDHWM in the code, matched by pattern) are outside the theorems and measured by the scenarios only.",
         note=COMMON_NOTE + "Timing oracles allow 600 ms of slack; kernel buffers are pinned with SNDBUF/RCVBUF in most scenarios.",
